@@ -19,7 +19,7 @@ def sim(text, ref):
                 technique="symbolic execution of the real Simulator.simulate() (own z3-backed path explorer) over bounded worlds with symbolic numerics")
 
 CHECKS = {
- "C01": sim("Every feasible path of whole simulation runs over a covering list of small worlds (2-3 tasks, 1-2 workers/pools, several resource instances and types, greedy policies and the solver-driven plan-ahead policy) "
+ "C01": sim("Every feasible path of whole simulation runs over a covering list of small worlds (2-3 tasks, 1-2 workers/pools, several resource instances and types, named instances with pinned requests, greedy policies and the solver-driven plan-ahead policy) "
             "with symbolic capacities, demands and times; after every placement, event and clock step z3 proves ledger demand <= capacity for every worker and resource.", "3/C01"),
  "C02": sim("Every feasible path of whole runs over chains, forks, joins, skip-diamonds and conditionals under greedy and plan-ahead (lookahead / release_taskgraphs / retraction) policies; "
             "at every Task.start z3 proves start >= (declared) release and all predecessors completed by then; start/finish at most once.", "3/C02"),
@@ -42,7 +42,7 @@ CHECKS = {
         "the real release-time generation (all five policies), task-graph instantiation, closed-loop re-release and deadline fuzzing run symbolically and are compared with their definitions (deadline enclosure with +-1 rounding slack).",
    technique="symbolic execution of the real loaders and release policies (own z3-backed path explorer) over symbolic description integers"),
  "C09": sim("Non-interference by self-composition: on every feasible path the same world (same symbolic inputs, same seed, seeds {0,1,42} in the thorough tier) is simulated twice under two environments - wall-clock readings, draws of generators built without a seed or seeded from a string hash / pre-seed global state, and the iteration order of string sets all differ - "
-            "and z3 proves the two CSV traces equal cell by cell (measured scheduler duration masked). Worlds: conditionals, branch prediction draws, deadline and runtime variance, two-resource pools, Poisson arrivals.", "3/C09"),
+            "and z3 proves the two CSV traces equal cell by cell (measured scheduler duration masked). Worlds: conditionals, branch prediction draws, deadline and runtime variance, two-resource pools, Poisson arrivals (policy given / not given the seed), and the real entry point main.main() on a repository profile under both log-file modes.", "3/C09"),
  "C10": dict(level="model_checking", design="3/C10", engine="pysym+mip2smt", note=PYSYM_NOTE + " Planner part: gurobipy.Model subclass / docplex / z3.Optimize capture inside the real schedule(); translation of linear, bilinear, indicator and AND constraints to z3 (anything else aborts); read-back relation validated on every instance against the real get_placements().",
    text="Greedy policies: every feasible path of the real EDF/FIFO/LSF schedule() on API-built mixed states (released + running + scheduled-for-later tasks, heterogeneous pools, symbolic numerics): one decision per offered task, existing pool, own strategy, time >= now/release, first-fit replay within capacity, live state untouched. "
         "Planners (ILP, TetriSched-Gurobi/CPLEX, Z3): schedule() must return; over ALL solutions of the captured model z3 proves start >= now/release and no worker over capacity at any start instant; returned plan re-checked concretely.",
@@ -74,12 +74,12 @@ CHECKS = {
    technique="symbolic execution of the real Python (own z3-backed path explorer), bounded"),
  "C17": dict(level="model_checking", design="3/C17",
    text="Edges are solver booleans (every labelled digraph on 3 nodes incl. cycles, every 4-node DAG under 3 insertion orders, bounded 5-node DAGs; thorough: all 4096 4-node digraphs, all 5-node DAGs, bounded 6-node), "
-        "node weights symbolic positive integers (mixed time units); the real Graph/TaskGraph/JobGraph routines run on every feasible path and z3 compares them with reference definitions (all source-sink paths enumerated per structure).",
+        "node weights symbolic positive integers (mixed time units); the real Graph/TaskGraph/JobGraph routines run on every feasible path and z3 compares them with reference definitions (all source-sink paths enumerated per structure); one world re-queries after add_node / add_child / remove.",
    technique="symbolic execution of the real Python (own z3-backed path explorer), exhaustive small-scope structures with symbolic weights"),
  "C20": dict(level="translation_validation", design="3/C20", engine="strl2smt",
    note="Trusted base: z3 (Solver for all-solutions queries, Optimize for optima); g++ 12 -std=c++20 -fno-access-control; the sequential TBB shim /verif/strl/shim (the library is otherwise compiled unchanged from /repo on every run); the driver /verif/strl/strl_driver.cpp that builds trees with the real constructors, runs the real passes and parse(), dumps the SolverModel and feeds variable values back into the real populateResults(); the reference STRL semantics in checks/c20.py.",
-   text="For every tree of a bounded family (2-3 tasks as Max over 1-3 Choose/Allocation/WindowedChoose leaves, combined by Objective / Min / LessThan / Scale with a shared sub-expression, 1-2 partitions, all subsets of the pruning passes, discretisation 1-3) the model emitted by the real C++ compiler is translated to z3 and, over ALL its solutions, "
-        "z3 proves capacity at every instant, Choose exactness, Min/Max/LessThan structure, reported utility == objective; the optimum (z3.Optimize) equals an independent reference optimum and is unchanged by the passes; coarse grids only lose utility. Read-back validated by the real populateResults() on every model used.",
+   text="For every tree of a bounded family (2-3 tasks; leaves Choose, WindowedChoose, MalleableChoose, Allocation; combined by Objective / Min / LessThan (nested both ways, over Min, over an Allocation or a single Choose) / Scale / a shared Max; 1-2 partitions; all subsets of the pruning passes; discretisation 1-3; the dynamic discretisation pass) the model emitted by the real C++ compiler is translated to z3 and, over ALL its solutions, "
+        "z3 proves capacity at every instant, Choose exactness, Min/Max/LessThan structure, reported utility == objective; the set of outcomes (which option of which leaf is placed) equals that of an independent SMT reference of STRL (solver-driven AllSAT both ways), the optimum (z3.Optimize) equals the reference optimum and is unchanged by the passes; coarse / dynamically chosen grids only lose utility. Read-back validated by the real populateResults() on every model used.",
    technique="all-solutions SMT queries over the optimisation model emitted by the real C++ STRL compiler (rebuilt from source every run); optimum vs independent SMT reference"),
 }
 
